@@ -784,6 +784,102 @@ def run_sections(res):
     return out
 
 
+def _filtered_case(args):
+    """FastEnforcer and Enforcer, each on its own FilteredFileAdapter over the same policy file: full, filtered and FAILING
+    filtered loads (wrong filter type / file away), clear_policy and edits; after every step result, rule set and decisions
+    of the two are compared (implementation side only)"""
+    import shutil
+    import tempfile
+
+    shape, order, script = args
+    casbin = casbin_mod()
+    from casbin.persist.adapters import FilteredFileAdapter
+    from casbin.persist.adapters.filtered_file_adapter import Filter
+
+    d = tempfile.mkdtemp(prefix="c19f_")
+    try:
+        U = rule_universe(shape)
+        path = os.path.join(d, "policy.csv")
+        with open(path, "w") as f:
+            f.write("\n".join(", ".join(["p"] + r) for r in U[:6]) + "\n" + ("\n".join(", ".join(["g"] + r) for r in GRULES) + "\n" if HAS_G[shape] else ""))
+        mpath = os.path.join(common.REPO, "examples", SHAPES[shape])
+        fast = casbin.FastEnforcer(mpath, FilteredFileAdapter(path), cache_key_order=list(order))
+        plain = casbin.Enforcer(mpath, FilteredFileAdapter(path))
+        reqs = request_universe(shape, full=False)
+        out = []
+        for op in script:
+            rets = []
+            for e in (fast, plain):
+                e.enable_auto_save(False)
+                try:
+                    if op[0] == "load":
+                        r = e.load_policy()
+                    elif op[0] == "loadf":
+                        flt = Filter()
+                        flt.P, flt.G = list(op[1]), list(op[2])
+                        r = e.load_filtered_policy(flt)
+                    elif op[0] == "loadf-bad":
+                        r = e.load_filtered_policy(object())
+                    elif op[0] == "loadf-gone":
+                        os.replace(path, path + ".away")
+                        try:
+                            flt = Filter()
+                            flt.P, flt.G = [U[0][0]], []
+                            r = e.load_filtered_policy(flt)
+                        finally:
+                            os.replace(path + ".away", path)
+                    elif op[0] == "clear":
+                        r = e.clear_policy()
+                    elif op[0] == "add":
+                        r = e.add_policy(*op[1])
+                    elif op[0] == "remove":
+                        r = e.remove_policy(*op[1])
+                    else:
+                        raise common.Infra("unknown op " + repr(op))
+                    rets.append(repr(r))
+                except common.Infra:
+                    raise
+                except Exception as ex:  # noqa
+                    rets.append("!" + type(ex).__name__)
+            out.append((rets, [canon_rules(e.get_policy()) for e in (fast, plain)], [observe(e, reqs) for e in (fast, plain)]))
+        return out
+    finally:
+        shutil.rmtree(d, ignore_errors=True)
+
+
+def run_filtered_stream(ctx, res, deep):
+    rng = ctx["rng"]
+    jobs = []
+    for shape, order in (("acl", [2, 1]), ("acl", [1]), ("rbac", [2, 1]), ("rbac", [2])):
+        U = rule_universe(shape)
+        fails = [("loadf-bad",), ("loadf-gone",)]
+        goods = [("load",), ("loadf", [U[0][0]], []), ("loadf", ["", U[0][1]], []), ("clear",), ("add", U[-1]), ("remove", U[0])]
+        for a in goods[:3]:
+            for f in fails:
+                for b in goods:
+                    jobs.append((shape, order, [a, f, b]))
+        for _ in range(20 if not deep else 200):
+            jobs.append((shape, order, [rng.choice(goods + fails) for _ in range(rng.randint(3, 6))]))
+    for job in jobs:
+        shape, order, script = job
+        out = _filtered_case(job)
+        res.nontrivial.add(hash(("filtered-stream", repr(job))))
+        for i, (rets, pols, decs) in enumerate(out):
+            res.evaluations += 1
+            res.count("stream:filtered:" + script[i][0])
+            what = None
+            if rets[0] != rets[1]:
+                what = ("result", rets[0], rets[1])
+            elif pols[0] != pols[1]:
+                what = ("rules", pols[0], pols[1])
+            elif decs[0] != decs[1]:
+                what = ("decisions", decs[0], decs[1])
+            if what:
+                res.violation(dict(signature=f"filtered-stream:{script[i][0]}:{what[0]}", case=dict(kind="filtered-stream", shape=shape, order=order, script=[list(o) for o in script[: i + 1]]), expected=str(what[2])[:400], observed=str(what[1])[:400],
+                                   what=f"{shape}, cache_key_order={order}, both enforcers on a FilteredFileAdapter: after {[list(o) for o in script[: i + 1]]} the {what[0]} differ: FastEnforcer {str(what[1])[:200]}, Enforcer {str(what[2])[:200]}"))
+                break
+
+
 def run(ctx):
     res = common.Result()
     rng = ctx["rng"]
@@ -798,6 +894,7 @@ def run(ctx):
         if name == "thorough":
             jobs += list(gen_random(rng, 2500, 30, 30))
         run_sections(res)
+        run_filtered_stream(ctx, res, name == "thorough")
         run_jobs(jobs, res)
         res.rule = (
             f"[{name}] every history of length <= {maxlen} over a {len(alphabet('acl', name != 'thorough'))}/{len(alphabet('rbac', name != 'thorough'))}-operation alphabet (add/remove single+batch, "
@@ -835,5 +932,8 @@ def replay(obj):
     c = obj["case"]
     if c.get("kind") == "sections":
         return bool(run_sections(common.Result()))
+    if c.get("kind") == "filtered-stream":
+        rets, pols, decs = _filtered_case((c["shape"], c["order"], [tuple(o) for o in c["script"]]))[-1]
+        return rets[0] != rets[1] or pols[0] != pols[1] or decs[0] != decs[1]
     o = run_job(dict(shape=c["shape"], order=c["order"], ops=c["ops"], stream="replay"), None)
     return bool(o["viol"])
